@@ -47,6 +47,12 @@ func (er *ErrorReader) Read(b []byte) (n int, err error) {
 func (er *ErrorReader) Drain() {
 	if _, err := io.ReadAll(er.Reader); err != nil {
 		er.Err = err
+		return
+	}
+	// io.ReadAll treats an early EOF as success: a window that was not read to its end means the
+	// underlying stream ended inside the record
+	if lr, ok := er.Reader.(*io.LimitedReader); ok && lr != nil && lr.N > 0 && er.Err == nil {
+		er.Err = io.ErrUnexpectedEOF
 	}
 }
 
